@@ -17,7 +17,9 @@ META = {
                 "length and window within the bound (exhaustive). The binding is two-way: every enumerated request is "
                 "replayed into all eight real entry points on every backend/output/path cell with a recording stateful "
                 "callback, and randomly driven larger runs are recorded as event traces and accepted only if TLC finds "
-                "them to be behaviours of TraceWindow.tla. Bounded model checking plus conformance, not a proof.",
+                "them to be behaviours of TraceWindow.tla. Bounded model checking plus conformance; in addition the index "
+                "arithmetic Window.tla uses (WindowIdx.tla) is PROVED in bounds, write-once and complete for every length "
+                "and window with the TLA+ proof system (WindowProof.tla, tlapm).",
         "note": "TLC and the TLA+ modules are trusted; drivers are parametric in element values, so position-coded "
                 "values are used; lengths up to 7 (quick) / 12 (thorough) exhaustively, up to 120 by random traces.",
         "design": "DESIGN.md section 6 C02, section 4 Window",
@@ -97,7 +99,8 @@ META.update({
     "C11": {
         "text": "Agg.tla gives the textbook meaning of every aggregation over the non-null elements with its observation "
                 "threshold and the one-pass fold machine; TLC runs the fold over every series / pair / mask within the bound "
-                "and checks FoldRefines, FoldPrefix, PermInvariant over all permutations, NullTransparent." + ENUM,
+                "and checks FoldRefines, FoldPrefix, PermInvariant over all permutations, NullTransparent, FoldPrimitives "
+                "(the fold primitives bound by their closure calls), and InfLaws for float series holding infinities." + ENUM,
         "note": NOTE + " AggBasic twins on null-free input (DESIGN 5.9).",
         "design": "DESIGN.md section 6 C11",
     },
@@ -138,14 +141,18 @@ META.update({
         "text": "ReadsInBounds, WriteOnce, InitAtDone and DegenerateIsClean of Window.tla (every form, body, length, second "
                 "length, window incl. 0 and > len) and the write list of vrank's run-length loop in OrderStats.tla are checked "
                 "by TLC; the binding runs every driver and every kernel on an instrumented, bounds-checked input container "
-                "into an instrumented output buffer on both output paths." + TWOWAY,
+                "into an instrumented output buffer on both output paths; WindowProof.tla proves the drivers' index "
+                "arithmetic (the operators Window.tla itself uses) in bounds, write-once and complete for EVERY length and "
+                "window with the TLA+ proof system (tlapm; the proof is re-checked on every run)." + TWOWAY,
         "note": NOTE + " Kernel-internal scratch indices are covered at design level only (DESIGN 10).",
         "design": "DESIGN.md section 6 C10",
     },
     "C19": {
         "text": "Generators.tla: RangeExact (progression strictly before the end in the direction of the step, exact count "
                 "law), LinspaceEnds, first-error rule, and the writer machine with WriterRule (every slot exactly once or "
-                "none) and termination." + ENUM,
+                "none) and termination; RangeProof.tla proves the count law (none beyond, none missing) for EVERY integer "
+                "start / end and non-zero step with the TLA+ proof system, on the operators Generators.tla itself uses "
+                "(RangeIdx.tla); collect sources include the crate's own trusted wrapper over inexact-hint sources." + ENUM,
         "note": NOTE + " Float ranges driven with exactly representable quarter-integers.",
         "design": "DESIGN.md section 6 C19",
     },
@@ -156,7 +163,9 @@ META.update({
         "text": "HalfLife.tla is the doubling / bisection search as a state machine over every above-1/2 pattern; TLC checks "
                 "NoUnderflow, BracketInv, InRange, ResultLaw and the liveness property Terminates under weak fairness. "
                 "Composite.tla decides the pattern of a concrete integer series exactly, defines winsorize as clipping to "
-                "exact bounds and Spearman as Pearson of average ranks." + ENUM,
+                "exact bounds and Spearman as Pearson of average ranks. HalfLifeProof.tla carries the same three actions with "
+                "length and pattern as constants and proves NoUnderflow, BracketInv, InRange and a strictly shrinking bracket "
+                "for EVERY length and pattern with the TLA+ proof system (tlapm; re-checked on every run)." + ENUM,
         "note": NOTE + " Exact-1/2 autocorrelations and non-monotone patterns are compared on range / termination only.",
         "design": "DESIGN.md section 6 C20",
     },
@@ -169,13 +178,15 @@ META.update({
                 "as the adapters compute them; TLC checks AccessorsAgree and RingLive for every representation parameter "
                 "within the bound; every representation is built as the real container, its accessors compared with "
                 "Logical(c), and one representative of every function family required to be bit-identical on every "
-                "representation, wrapper, output container and output path." + ENUM,
+                "representation, wrapper, output container and output path; WriteMapOK / SetOneOK / SortOK / DerivedAgree cover "
+                "the representation as an output buffer, the mutable accessors, in-place sorting and the option / cast views." + ENUM,
         "note": NOTE + " std / ndarray / Polars internals trusted; one known finding (fast-path input with a Polars output container).",
         "design": "DESIGN.md section 6 C07",
     },
     "C15": {
         "text": "Casts.tla: CastExp over type tags and value classes, NullPreserved, OptionComposes, PredicatesCoherent and "
-                "the comparator axioms over all triples, checked by TLC on the definition." + ENUM,
+                "the comparator axioms over all triples, StrCoherent (String / &str sources: the text of a value class parsed "
+                "into the target type), IntoKindCoherent and TDAxioms, checked by TLC on the definition." + ENUM,
         "note": NOTE + " Wrap / saturation outcomes are compared with the language's `as` in the harness.",
         "design": "DESIGN.md section 6 C15",
     },
